@@ -91,7 +91,7 @@ fn c07_wvar_q_n4_ddof1() {
 
 /// weighted_var with data and weights in DIFFERENT memory orders (data: reversed view, weights:
 /// plain; both contiguous) — pairing must be by logical index.
-fn wvar_q_layouts<const N: usize>(ldata: u8, lw: u8, ddof: i64) {
+fn wvar_q_layouts<const N: usize>(ldata: u8, lw: u8, ddof: i64, wbits: u8) {
     let mut x = [0i64; N];
     let mut w = [0i64; N];
     let mut bx = [Q::int(0); N];
@@ -102,7 +102,7 @@ fn wvar_q_layouts<const N: usize>(ldata: u8, lw: u8, ddof: i64) {
     let mut k = 0;
     while k < N {
         x[k] = small();
-        w[k] = small() + 1;
+        w[k] = (small() & (wbits as i64)) + 1;
         bx[pos1(ldata, N, k)] = Q::int(x[k]);
         bw[pos1(lw, N, k)] = Q::int(w[k]);
         bws += w[k];
@@ -118,17 +118,20 @@ fn wvar_q_layouts<const N: usize>(ldata: u8, lw: u8, ddof: i64) {
     kani::cover!(x[0] != x[N - 1] && w[0] != w[N - 1], "W: asymmetric data and weights");
 }
 
-//@ prop=C07,C20:thorough tier=quick mem=4 timeout=2400 uses=Q inst="weighted_var on ArrayView1<Q> len 2: data reversed (stride -1), weights unit stride, ddof 0" bounds="x in 0..=3, w in 1..=4; unwind 18"
+// (n = 2 is blind to a data/weight mis-pairing: the weighted variance of two points is symmetric
+// under swapping the weights - found when the C07 seed passed the n = 2 harness - so n = 3, with
+// 1-bit weights to keep it inside the quick budget)
+//@ prop=C07,C20:thorough tier=quick mem=4 timeout=2400 uses=Q inst="weighted_var on ArrayView1<Q> len 3: data reversed (stride -1), weights unit stride, ddof 0" bounds="x in 0..=3, w in 1..=2; unwind 18"
 #[kani::proof]
 #[kani::unwind(18)]
-fn c07_wvar_q_n2_rev_data() {
-    wvar_q_layouts::<2>(3, 0, 0);
+fn c07_wvar_q_n3_rev_data_w1() {
+    wvar_q_layouts::<3>(3, 0, 0, 1);
 }
 //@ prop=C07,C20 tier=thorough mem=4 timeout=3600 uses=Q inst="weighted_var on ArrayView1<Q> len 3: data reversed (stride -1), weights unit stride, ddof 0" bounds="x in 0..=3, w in 1..=4; unwind 18"
 #[kani::proof]
 #[kani::unwind(18)]
 fn c07_wvar_q_n3_rev_data() {
-    wvar_q_layouts::<3>(3, 0, 0);
+    wvar_q_layouts::<3>(3, 0, 0, 3);
 }
 
 /// central_moment(p), every entry of central_moments(p), kurtosis at Q, n = 3.
